@@ -31,6 +31,12 @@ def _wire(out, spec):
                 shared = fm.adapters.Scale(1.0)
                 out >> shared
             shared >> inp
+        elif kind == "shared_dfix":  # several inputs behind ONE DelayFixed(0)
+            if shared is None:
+                from datetime import timedelta
+                shared = fm.adapters.DelayFixed(timedelta(0))
+                out >> shared
+            shared >> inp
         elif kind == "next":
             out >> fm.adapters.NextTime() >> inp
         elif kind == "linear":
@@ -68,7 +74,7 @@ def h_events(ctx):
     n = len(spec)
     pubs = []
     last_req = [None] * n
-    direct = [k in ("direct", "scale", "shared") for k in spec]
+    direct = [k in ("direct", "scale", "shared", "shared_dfix") for k in spec]
     for i in range(L):
         ev = ctx.choice(f"ev{i}", 1 + n) if pubs else 0
         if ev == 0:
@@ -234,6 +240,7 @@ def families(tier):
         ("two_direct", ["direct", "direct"], 5, 6),
         ("scale_and_direct", ["scale", "direct"], 4, 6),
         ("two_behind_one_adapter", ["shared", "shared"], 5, 6),
+        ("two_behind_one_delay_adapter", ["shared_dfix", "shared_dfix"], 5, 6),
         ("next_and_direct", ["next", "direct"], 4, 6),
         ("linear_and_direct", ["linear", "direct"], 0, 5),
         ("three_direct", ["direct", "direct", "direct"], 0, 6),
